@@ -144,6 +144,37 @@ func sweepOps() []op {
 	}
 	o = append(o, hostileAin()...)
 	o = append(o, structuralOps(true)...)
+	o = append(o, op{Kind: "ain", From: "E", Tok: "coin", Dests: []dest{{"W1", 0, "50c"}}, Fee: "cap"}) // the honest base of the whale's variants
+	o = append(o, wrapOps(true)...)
+	return o
+}
+
+// wrapOps: every PUBLIC amount that enters the commitment equation (account input amount, account output amount, fee)
+// moved by every offset of wrapOffsets, by the owner of the keys (everything else of the transaction is genuine).
+// hidden=false: only the account-input side (needs no hidden output).
+func wrapOps(hidden bool) []op {
+	var o []op
+	base := op{Kind: "hostile", From: "E", Tok: "coin", Dests: []dest{{"W1", 0, "50c"}}, Fee: "cap"}
+	for _, arg := range wrapOffsets {
+		for _, v := range []string{"wrap-ain", "wrap-ain-recommit", "wrap-fee"} {
+			x := base
+			x.Var, x.Arg = v, arg
+			o = append(o, x)
+		}
+	}
+	if !hidden {
+		return o
+	}
+	for _, ring := range []int{1, 3} {
+		for _, arg := range wrapOffsets {
+			o = append(o,
+				op{Kind: "hostile", Var: "wrap-aout", Arg: arg, W: "W0", Tok: "coin", Ring: ring, Nin: 3, To: "C", Amt: "all"},
+				op{Kind: "hostile", Var: "wrap-aout-recommit", Arg: arg, W: "W0", Tok: "coin", Ring: ring, Nin: 3, To: "C", Amt: "all"},
+				op{Kind: "hostile", Var: "wrap-fee", Arg: arg, W: "W0", Tok: "coin", Ring: ring, To: "W2.0", Amt: "all", Fee: "min"},
+				op{Kind: "hostile", Var: "wrap-aout", Arg: arg, W: "W0", Tok: "iss", From: "A", Ring: ring, To: "C", Amt: "5c", Fee: "min"},
+			)
+		}
+	}
 	return o
 }
 
@@ -206,7 +237,9 @@ func genesisOps() []op {
 		{Kind: "ain", From: "B", Tok: "coin", Dests: []dest{{"W1", 0, "50c"}}, Fee: "min+unit"},
 	}
 	o = append(o, hostileAin()...)
-	return append(o, structuralOps(false)...)
+	o = append(o, structuralOps(false)...)
+	o = append(o, op{Kind: "ain", From: "E", Tok: "coin", Dests: []dest{{"W1", 0, "50c"}}, Fee: "cap"})
+	return append(o, wrapOps(false)...)
 }
 
 func histAcct(quick bool) []op {
